@@ -241,14 +241,14 @@ def handleT [Target] (args : List String) : String :=
       match parseStr b with
       | some t =>
         match f with
-        | "contains" => showBool (Str.contains s t)
-        | "starts_with" => showBool (Str.starts_with s t)
-        | "ends_with" => showBool (Str.ends_with s t)
+        | "contains" => showRes showBool (bind_RotoString_contains false s t)
+        | "starts_with" => showRes showBool (bind_RotoString_starts_with false s t)
+        | "ends_with" => showRes showBool (bind_RotoString_ends_with false s t)
         | "eq" => showBool (s.chars == t.chars)
         | "append" => showStr (Str.append s t)
-        | "strip_prefix" => showOpt showStr (Str.strip_prefix s t)
-        | "strip_suffix" => showOpt showStr (Str.strip_suffix s t)
-        | "split" => showList showStr (Str.split s t)
+        | "strip_prefix" => showRes (showOpt showStr) (bind_RotoString_strip_prefix false s t)
+        | "strip_suffix" => showRes (showOpt showStr) (bind_RotoString_strip_suffix false s t)
+        | "split" => showRes (showList showStr) (bind_RotoString_split false s t)
         | _ => "bad-op"
       | none => "bad-op"
     | _, none =>
